@@ -140,7 +140,7 @@ func (p Precompile) WithdrawDelegatorRewards(
 	// NOTE: This ensures that the changes in the bank keeper are correctly mirrored to the EVM stateDB.
 	// This prevents the stateDB from overwriting the changed balance in the bank keeper when committing the EVM state.
 	if isContractDelegator {
-		stateDB.(*statedb.StateDB).AddBalance(contract.CallerAddress, res.Amount[0].Amount.BigInt())
+		stateDB.(*statedb.StateDB).AddBalance(contract.CallerAddress, res.Amount.AmountOf(p.stakingKeeper.BondDenom(ctx)).BigInt())
 	}
 
 	return method.Outputs.Pack(cmn.NewCoinsResponse(res.Amount))
